@@ -17,6 +17,7 @@ extern _Bool g_target_opened_for_write, g_tmp_open, g_tmp_closed, g_tmp_closed_o
              g_target_is_final, g_renamed, g_md5_written, g_failure_seen;
 #define EX_OK 0
 extern const unsigned long SIZEOF_std_string;
+extern size_t forced_lang_flags;
 #define INPLACE g_same_in_out
 
 /* ---------- environment (assumed) ---------- */
@@ -135,6 +136,8 @@ __CPROVER_requires(g_fs_writes == 0 && !g_target_opened_for_write && !g_tmp_open
 __CPROVER_assigns(CPD(lang_flags), g_fs_writes, g_target_opened_for_write, g_tmp_open, g_tmp_closed, g_tmp_closed_ok, g_tmp_write_error,
                   g_backup_done_ok, g_target_is_final, g_renamed, g_md5_written, g_failure_seen, g_exit_status, g_matches,
                   __CPROVER_object_upto(CPD(filename), SIZEOF_std_string))
+/* C11-K2: with -l the language of every file is the forced one, whatever an earlier file left in cpd.lang_flags */
+__CPROVER_ensures((CPD(lang_forced) && __CPROVER_old(CPD(lang_flags)) != 0) ==> CPD(lang_flags) == forced_lang_flags)
 /* C12-K4: --check touches nothing; --if-changed touches nothing when nothing changed (it returns early) */
 __CPROVER_ensures(CPD(do_check) ==> g_fs_writes == 0)
 __CPROVER_ensures((CPD(if_changed) && g_matches) ==> g_fs_writes == 0)
